@@ -25,6 +25,26 @@ Proof.
   intros k Hk. cbn in Hk. unfold NN. cbn. intuition lia.
 Qed.
 
+(* ---- the repaired 'b' fingerprint (number of tensors hashed, sizes attached to the edges):
+        the two witnesses above no longer collide, and equal fingerprints have equally many
+        tensors, so a stored path is a complete path for both ---- *)
+Lemma fp_b2_separates_witnesses : fp_b2 b1_x <> fp_b2 b1_y /\ fp_b2 b2_x <> fp_b2 b2_y.
+Proof. split; vm_compute; discriminate. Qed.
+
+Lemma fp_b2_tensor_count n1 n2 : fp_b2 n1 = fp_b2 n2 ->
+  NN n1 = NN n2 /\ forall p, path_to_tree (NN n1) p = path_to_tree (NN n2) p.
+Proof. unfold fp_b2, NN. intros E. injection E as E1 E2. split; [exact E1|intros p; rewrite E1; reflexivity]. Qed.
+
+(* a true relabelling (here: b and z exchanged, all else equal) still shares an entry -- as 'b' is
+   meant to -- but a stored sliced index is a LABEL and need not exist in the other contraction:
+   what remains of the finding (hash-b-relabel-sliced) *)
+Definition b3_x : net := mkNet [[0;1]; [1;2]] [0;2] [(0, 1%Z); (1, 2%Z); (2, 1%Z); (25, 2%Z)].
+Definition b3_y : net := mkNet [[0;25]; [25;2]] [0;2] [(0, 1%Z); (1, 2%Z); (2, 1%Z); (25, 2%Z)].
+Lemma fp_b_relabel_sliced :
+  fp_b b3_x = fp_b b3_y /\ fp_b2 b3_x = fp_b2 b3_y /\
+  reconstruct b3_x (mkCon [(0,1)] 0%Z [1]) <> None /\ reconstruct b3_y (mkCon [(0,1)] 0%Z [1]) = None.
+Proof. vm_compute. repeat split; congruence. Qed.
+
 (* =====================================================================================
    fingerprint 'a' is sound (uses Proofs/FingerprintFacts.v)
    ===================================================================================== *)
@@ -36,7 +56,7 @@ Proof. intros E1 E2. rewrite <- (firstn_skipn n a), <- (firstn_skipn n b), E1, E
 (* equal cache keys come from equal fingerprints, when sha1 o pickle separates them *)
 Lemma key_of_inj (H : fpr -> name) c q1 q2 :
   (forall f g, H f = H g -> f = g) ->
-  key_of H c q1 = key_of H c q2 -> fingerprint (method_b c) q1 = fingerprint (method_b c) q2.
+  key_of H c q1 = key_of H c q2 -> fingerprint_c c q1 = fingerprint_c c q2.
 Proof.
   intros Hinj. unfold key_of. destruct (split c); intros E; inversion E as [E1]; apply Hinj.
   - apply (firstn_skipn_inj 2); assumption.
@@ -640,13 +660,13 @@ Theorem maybe_run_cur_poisoned (H : fpr -> name) enc dec mr orc c q v f ns :
   fst (maybe_run H (ops_cur enc dec (S mr)) orc c (mkDD [] true f1, ns) q) = UnboundErr.
 Proof.
   intros Hd Hr ES EO Hnd f1.
-  assert (EK : key_of H c q = KS (H (fingerprint (method_b c) q))) by (unfold key_of; rewrite ES; reflexivity).
+  assert (EK : key_of H c q = KS (H (fingerprint_c c q))) by (unfold key_of; rewrite ES; reflexivity).
   unfold f1 in *. clear f1. rewrite EK in *. cbn [kpath] in Hnd.
-  destruct (crash_cur_poisons con enc dec (H (fingerprint (method_b c) q)) v f mr Hd Hr Hnd) as [C G].
-  set (d0 := mkDD [] true (crash_at 1 (setitem_ops_cur con enc (KS (H (fingerprint (method_b c) q))) v) f)) in *.
+  destruct (crash_cur_poisons con enc dec (H (fingerprint_c c q)) v f mr Hd Hr Hnd) as [C G].
+  set (d0 := mkDD [] true (crash_at 1 (setitem_ops_cur con enc (KS (H (fingerprint_c c q))) v) f)) in *.
   unfold maybe_run. rewrite EK. cbn [ops_cur o_contains o_getitem o_setitem].
   unfold contains_cur in *. cbn [fst] in C. rewrite C. cbn [negb orb]. rewrite EO.
-  destruct (getitem_cur con dec (S mr) d0 (KS (H (fingerprint (method_b c) q)))) as [r d2] eqn:EG.
+  destruct (getitem_cur con dec (S mr) d0 (KS (H (fingerprint_c c q)))) as [r d2] eqn:EG.
   cbn [fst] in G. subst r. reflexivity.
 Qed.
 
